@@ -366,8 +366,15 @@ func main() {
 
 	wall := time.Since(start).Seconds()
 	level := "exploration"
+	evaluations := len(results)
+	rule := "one evaluation = one simulated run (plan derived from (VERIF_SEED, property, run index): configuration, clients, operations, faults, schedule bias; every scheduling choice drawn from the run's PRNG). " +
+		"A run is non-trivial if the check's own predicate holds (it exercised the property: e.g. messages were delivered / faults fired / context switches taken); " +
+		"distinct = distinct pairs (hash of the sequence of scheduled task sites and simulator events, set of fault kinds that fired) among non-trivial runs, counted from the workers' result lines"
 	if prop == "C09" {
 		level = "fault_enumeration"
+		evaluations = probes["crash_points"]
+		rule = "one evaluation = one crash point: a prefix of the journal of mutating storage commands of a generated history, materialised and restarted on (histories = simulated runs; crash points per history: quick = prefixes adjacent to acknowledgements + seeded sample, thorough = all prefixes). " +
+			"distinct_nontrivial counts distinct histories (hash of scheduled task sites and events) that had at least 2 crash points checked"
 	}
 	ev := map[string]any{
 		"property_id": prop,
@@ -377,11 +384,10 @@ func main() {
 		"wall_s":      wall,
 		"violations":  nviol,
 		"coverage": map[string]any{
-			"evaluations":         len(results),
+			"evaluations":         evaluations,
+			"histories":           len(results),
 			"distinct_nontrivial": len(distinct),
-			"rule": "one evaluation = one simulated run (plan derived from (VERIF_SEED, property, run index): configuration, clients, operations, faults, schedule bias; every scheduling choice drawn from the run's PRNG). " +
-				"A run is non-trivial if the check's own predicate holds (it exercised the property: e.g. messages were delivered / faults fired / context switches taken); " +
-				"distinct = distinct pairs (hash of the sequence of scheduled task sites and simulator events, set of fault kinds that fired) among non-trivial runs, counted from the workers' result lines",
+			"rule": rule,
 			"samples":                  samples,
 			"nontrivial_runs":          nontriv,
 			"distinct_histories":       len(states),
